@@ -134,6 +134,51 @@ def gen_input(rng, u, defs):
     return {"kind": "fail", "sub": sub, "lines": lines}
 
 
+def split_points(line):
+    """Offsets of spaces that sit inside an open bracket and outside strings: breaking the line there leaves an
+    incomplete first part, so the REPL must ask for more, and the text means the same."""
+    pts, depth, in_str, i = [], 0, False, 0
+    if "#[" in line or ";" in line:
+        return pts
+    while i < len(line):
+        ch = line[i]
+        if in_str:
+            if ch == "\\":
+                i += 2
+                continue
+            if ch == '"':
+                in_str = False
+        elif ch == '"':
+            in_str = True
+        elif ch in "([{":
+            depth += 1
+        elif ch in ")]}":
+            depth -= 1
+        elif ch == " " and depth > 0:
+            pts.append(i)
+        i += 1
+    return pts
+
+
+def split_lines(rng, inp):
+    if inp["kind"] == "interrupt" or len(inp["lines"]) != 1:
+        return inp
+    line = inp["lines"][0]
+    pts = split_points(line)
+    if not pts:
+        return inp
+    chosen = sorted(rng.sample(pts, min(len(pts), rng.choice([1, 1, 2, 3]))))
+    out, prev = [], 0
+    for p_ in chosen:
+        out.append(line[prev:p_])
+        prev = p_ + 1
+    out.append(line[prev:])
+    # an empty continuation line would be read as "end of input" by nobody, but keep the lines non-empty anyway
+    if any(not x.strip() for x in out):
+        return inp
+    return dict(inp, lines=out, split=True)
+
+
 def generate(rng, tier):
     n = rng.randrange(5, 26)
     defs = []
@@ -146,6 +191,8 @@ def generate(rng, tier):
         defs += [("var", 0), ("bad", 100), ("bad", 100), ("var", 0)]
     themed = bool(inputs)
     inputs += [gen_input(rng, 101 + i, defs) for i in range(n)]
+    # programs split at line breaks the generator did not write by hand: any space inside an open bracket
+    inputs = [split_lines(rng, x) if rng.random() < 0.3 else x for x in inputs]
     if themed:
         # closing probes: a module-level macro defined after whatever failed must be a *module* macro, the global
         # `a` must still be the global
